@@ -24,3 +24,8 @@ chk("C05", "PBT programs -> compileTeal -> abstract interpretation (stack height
     "Generated programs (recursion, by-ref, loops with Break/Continue, frame-pointer and scratch conventions, optimiser on/off) are analysed per routine: equal relative height on every path, no pop below the routine's own values, retsub/return heights match declared signatures, frame accesses in range, no definitely ill-typed operand; executions of anytype-free programs must not panic with TYPE/UNDERFLOW.",
     "Trusts opcode stack signatures in vf/teal/langspec.py (self-tested on the golden corpus and on hand-written ill-formed programs) and the reference interpreter.",
     "DESIGN.md section 2 C05")
+
+chk("C02", "differential PBT over generated call graphs (recursion, by-ref, ABI routines) x calling conventions: reference AVM interpreter vs independent evaluator, plus a call-boundary stack invariant checked on interpreter traces",
+    "Generated call graphs with self/mutual recursion, by-value/by-reference/ABI parameters, none/uint64/bytes/ABI results, locals live across re-entrant calls and calls nested in operands are compiled under both calling conventions and executed; outcomes must equal an evaluator with function-call semantics, and at every retsub the caller's stack below the call must be untouched with exactly the declared results on top. By-ref routines on a recursion cycle must be rejected.",
+    "Trusts vf/avm callsub/proto/frame/retsub semantics (go-algorand), vf/recipe/eval.py call semantics; recursion depth bounded by a fuel parameter.",
+    "DESIGN.md section 2 C02")
